@@ -283,8 +283,8 @@ func checkPairing(p *an.Prog, r *an.Run, fn *ssa.Function) {
 	neg := negCallOf(p, methodArgs(debit)[1])
 	// accumulator = root of Neg's operand
 	negArgs := neg.Call.Args
-	accRoot, _ := an.RootPath(negArgs[len(negArgs)-1])
-	isAcc := func(v ssa.Value) bool { r0, _ := an.RootPath(v); return r0 == accRoot }
+	accRoot := bigRoot(negArgs[len(negArgs)-1])
+	isAcc := func(v ssa.Value) bool { return bigRoot(v) == accRoot }
 	if _, ok := accRoot.(*ssa.Alloc); !ok {
 		r.Undec("pairing", name+":accumulator", neg.Pos(), "the negated amount is not a locally allocated accumulator (%s)", accRoot)
 		return
